@@ -16,16 +16,16 @@ open Std
 
 namespace DD
 
-/-- the two ways of reading an assignment of names as an assignment of levels (`asgOf`:
+/-- the two ways of reading an assignment of names as an assignment of levels (`dddmpAsgOf`:
 undeclared levels read false; `Tbl.lift`: through `nameOf`) give the same value on a node of
 a manager whose levels `0..n-1` all carry a name -/
 theorem den_asgOf_eq_denN {t : Tbl} (hw : WF t) (hO : OrderOK t) {u : Int} (hu : t.Mem u)
-    (α : String → Bool) : den t u (asgOf t α) = denN t u α := by
+    (α : String → Bool) : den t u (dddmpAsgOf t α) = denN t u α := by
   unfold denN
   apply den_agree' t hw u hu
   intro i hi
   obtain ⟨v, hv⟩ := hO.total i hi
-  simp [asgOf, asgOfMap, Tbl.lift, Tbl.nameOf, hv]
+  simp [dddmpAsgOf, asgOfMap, Tbl.lift, Tbl.nameOf, hv]
 
 /-- C16 in the vocabulary of the by-name theorems (`denN`, used by C07, C09, C10, C14, C17):
 the loaded manager is a good state whose roots denote, as functions of the variable names,
